@@ -189,6 +189,45 @@ def near_twin(est, rate, m, k):
     return None
 
 
+def same_geometry_pair(rng, max_bits=50000):
+    """(n, p, n2, p2, (bits, hashes)): two DIFFERENT requests that derive the same geometry (compatible operands), or None"""
+    for _ in range(200):
+        n = rng.randint(2, 400)
+        p = rng.choice([0.3, 0.2, 0.1, 0.065, 0.05, 0.03, 0.01, 0.004, 0.001])
+        mk = refimpl.bloom_sizing_simple(n, p)
+        if not mk or mk[1] < 1 or mk[0] > max_bits:
+            continue
+        for _ in range(60):
+            n2 = max(1, n + rng.choice([-2, -1, 1, 2, 3]))
+            p2 = p * rng.uniform(0.6, 1.6)
+            if 0 < p2 < 0.7 and n2 != n and refimpl.bloom_sizing_simple(n2, p2) == mk:
+                return n, p, n2, p2, mk
+    return None
+
+
+_ALIGNED = {}
+
+
+def block_aligned_geometries(counting=False):
+    """(est_elements, rate, bits, hashes) whose array length (bytes for a plain filter, cells for a counting one) is an exact multiple
+    of 512 - and so of whatever power-of-two block size <= 512, or 1024 / 4096 / ... for some of them - found once per process"""
+    if counting not in _ALIGNED:
+        import math
+
+        out = []
+        for rate in (0.01, 0.05, 0.001):
+            c = -math.log(refimpl.f32(rate)) / (math.log(2) ** 2)
+            for n in range(60, 9000 if counting else 70000):
+                m = math.ceil(n * c)
+                length = m if counting else (m + 7) // 8
+                if length % 512 == 0 and (length % 4096 == 0 or n % 7 == 0):
+                    mk = refimpl.bloom_sizing_simple(n, rate)
+                    if mk and (mk[0] if counting else (mk[0] + 7) // 8) % 512 == 0:
+                        out.append((n, rate, mk[0], mk[1]))
+        _ALIGNED[counting] = out
+    return _ALIGNED[counting]
+
+
 def bloom_geometry(rng, small=True, max_bits=60000):
     """(est_elements, rate, bits, hashes) accepted by the constructor (screened with the independent sizing);
     number_bits mod 8 spreads over all residues"""
